@@ -194,6 +194,66 @@ func c08DirectCalls() []*c08call {
 		pc.want = pc.direct()
 		out = append(out, pc)
 	}
+	// a call whose issue sits nine segments deep, and a call that parses another record from inside one of its own callbacks
+	type lv4 struct{ V string }
+	type lv3 struct{ D []lv4 }
+	type lv2 struct{ C []lv3 }
+	type lv1 struct{ B []lv2 }
+	type lv0 struct{ A []lv1 }
+	deepSch := z.Struct(z.Schema{"a": z.Slice(z.Struct(z.Schema{"b": z.Slice(z.Struct(z.Schema{"c": z.Slice(z.Struct(z.Schema{"d": z.Slice(z.Struct(z.Schema{"v": z.String().Min(5)}))}))}))}))})
+	deepData := func() map[string]any {
+		return map[string]any{"a": []any{map[string]any{"b": []any{map[string]any{"c": []any{map[string]any{"d": []any{map[string]any{"v": "x"}, map[string]any{"v": "y"}}}}}}}}}
+	}
+	dcall := &c08call{mode: ref.Parse, desc: "Parse with issues nine path segments deep (a[0].b[0].c[0].d[0].v)"}
+	dcall.direct = func(opts ...z.ExecOption) string {
+		var d lv0
+		return dKeys(deepSch.Parse(deepData(), &d, opts...))
+	}
+	dcall.want = dcall.direct()
+	out = append(out, dcall)
+	ncall := &c08call{mode: ref.Parse, desc: "Parse whose TestFunc parses another (deep) record before it answers"}
+	ncall.direct = func(opts ...z.ExecOption) string {
+		var inner string
+		sch := z.Struct(z.Schema{"name": z.String().TestFunc(func(v any, ctx z.Ctx) bool {
+			var d lv0
+			inner = dKeys(deepSch.Parse(deepData(), &d))
+			return false
+		}, z.Message("outer says no")), "zip": z.String().Min(5)})
+		var d struct{ Name, Zip string }
+		m := sch.Parse(map[string]any{"name": "n", "zip": "1"}, &d, opts...)
+		return dKeys(m) + " / inner: " + inner
+	}
+	ncall.want = ncall.direct()
+	out = append(out, ncall)
+	// lists of lengths nobody has parsed before in this process (each call of the first few dozen is longer than the one before): the
+	// position segments of the issue paths are known in advance
+	var lenCtr int64
+	longSch := z.Slice(z.String().Min(2))
+	lcall := &c08call{mode: ref.Parse, desc: "Parse of a list longer than any parsed before (every item failing): issue keys [0] … [n-1]"}
+	lcall.direct = func(opts ...z.ExecOption) string {
+		k := atomic.AddInt64(&lenCtr, 1)
+		n := 12
+		if k <= 48 {
+			n = 140 + int(k)*67
+		}
+		in := make([]any, n)
+		for i := range in {
+			in[i] = "x"
+		}
+		var d []string
+		m := longSch.Parse(in, &d, opts...)
+		if len(m) != n+1 {
+			return fmt.Sprintf("%d keys for %d failing items", len(m)-1, n)
+		}
+		for i := 0; i < n; i++ {
+			if l := m[fmt.Sprintf("[%d]", i)]; len(l) != 1 || l[0].Path != fmt.Sprintf("[%d]", i) {
+				return fmt.Sprintf("item %d of %d: %d issue(s) under its key", i, n, len(l))
+			}
+		}
+		return "every item under its own key"
+	}
+	lcall.want = "every item under its own key"
+	out = append(out, lcall)
 	// top-level calls of the schema types that have no children of their own: a custom schema, a Preprocess in front of a slice / a struct,
 	// plain primitives - each with issues whose paths and messages are its own
 	customSch := z.CustomFunc(func(v *int, ctx z.Ctx) bool { return *v > 10 }, z.Message("custom says no"))
